@@ -10,6 +10,11 @@
                       limit and the `i + 4` of RNDMSG; the 16 (i, K0, K1, K2, K3) rows of the RNDMSG
                       invocations; the four state shuffles, state/block offsets
 
+  alg/sha256.c        (run-time selection only) the rows (case label, callee) of the `switch (hwaccel)` at the
+                      top of SHA256_Transform, the rows (value, tested function) of the CPUSUPPORT_VALIDATE calls
+                      of hwaccel_init in their order, the length of the self-test block; the shapes of hwtest,
+                      of the two _with_W_S shims and of CPUSUPPORT_VALIDATE (cpusupport/cpusupport.h) are demanded
+
 Everything else about the two functions (which intrinsic is applied to what, in which order) is modelled by
 hand in coq/Accel/Sse2Sha.v / ShaNi.v; the patterns below demand that shape (whitespace, comments and the
 names of local variables are free), so an intrinsic replaced by another one is reported as a broken tie.
@@ -282,9 +287,85 @@ def extract_shani(repo):
     return v
 
 
+# --------------------------------------------------------------------------- sha256.c (selection)
+HWCODE = {"HW_SOFTWARE": 0, "HW_X86_SHANI": 1, "HW_X86_SSE2": 2, "HW_ARM_SHA256": 3}
+CALLEE = {"SHA256_Transform_shani(state,block)": 1, "SHA256_Transform_sse2(state,block,W,S)": 2,
+          "SHA256_Transform_arm(state,block)": 3}
+TESTED = {"SHA256_Transform_shani_with_W_S": 1, "SHA256_Transform_sse2": 2, "SHA256_Transform_arm_with_W_S": 3}
+CPUCHK = {1: "cpusupport_x86_shani()&&cpusupport_x86_ssse3()", 2: "cpusupport_x86_sse2()", 3: "cpusupport_arm_sha256()"}
+
+
+def no_cpp(text):
+    """Drop preprocessor lines (continuations included)."""
+    return re.sub(r"^[ \t]*#(?:[^\n]*\\\n)*[^\n]*$", " ", text, flags=re.M)
+
+
+def extract_dispatch(repo):
+    raw = strip_comments(read(repo, "alg/sha256.c"))
+    s = no_cpp(raw)
+    v = {}
+    # the enum: HW_SOFTWARE must be 0 and first, HW_UNSET last and the initial value
+    m = re.search(r"static\s+enum\s*\{(.*?)\}\s*hwaccel\s*=\s*(\w+)\s*;", s, flags=re.S)
+    if not m:
+        raise NotFound("the hwaccel enum of sha256.c")
+    names = [sq(x) for x in m.group(1).split(",") if sq(x)]
+    if names[0] != "HW_SOFTWARE=0" or names[-1] != "HW_UNSET" or m.group(2) != "HW_UNSET" \
+            or any(n not in HWCODE for n in names[1:-1]) or len(set(names)) != len(names):
+        raise NotFound("enumerators of hwaccel")
+    # the switch at the top of SHA256_Transform
+    b = func_body(s, "SHA256_Transform")
+    m = re.match(r"inti;(?:assert\(hwaccel!=HW_UNSET\);)?switch\(hwaccel\)\{((?:case\w+:[^;{}]*;return;)*)"
+                 r"caseHW_SOFTWARE:caseHW_UNSET:break;\}be32dec_vect\(W,block,64\);", b)
+    if not m:
+        raise NotFound("shape of the `switch (hwaccel)` of SHA256_Transform")
+    rows_sw = []
+    for lab, call in re.findall(r"case(\w+):([^;{}]*);return;", m.group(1)):
+        if lab not in HWCODE or call not in CALLEE or HWCODE[lab] == 0:
+            raise NotFound("case %s: %s of SHA256_Transform" % (lab, call))
+        rows_sw.append((HWCODE[lab], CALLEE[call]))
+    if len({r[0] for r in rows_sw}) != len(rows_sw):
+        raise NotFound("duplicate case label in SHA256_Transform")
+    v["shacfg_switch"] = rows_sw
+    # the shims and hwtest
+    for nm, callee in (("SHA256_Transform_shani_with_W_S", "SHA256_Transform_shani"),
+                       ("SHA256_Transform_arm_with_W_S", "SHA256_Transform_arm")):
+        need(r"\(void\)W;\(void\)S;%s\(state,block\);" % callee, func_body(s, nm), nm)
+    need(r"uint32_tstate_sw\[8\];uint32_tstate_hw\[8\];memcpy\(state_sw,state,sizeof\(state_sw\)\);"
+         r"SHA256_Transform\(state_sw,block,W,S\);memcpy\(state_hw,state,sizeof\(state_hw\)\);"
+         r"func\(state_hw,block,W,S\);return\(memcmp\(state_sw,state_hw,sizeof\(state_sw\)\)\);",
+         func_body(s, "hwtest"), "hwtest (sha256.c)")
+    # hwaccel_init
+    b = func_body(s, "hwaccel_init")
+    m = need(r"uint32_tW\[64\];uint32_tS\[8\];uint8_tblock\[(\d+)\];uint8_ti;if\(hwaccel!=HW_UNSET\)return;"
+             r"hwaccel=HW_SOFTWARE;for\(i=0;i<(\d+);i\+\+\)block\[i\]=i;"
+             r"((?:CPUSUPPORT_VALIDATE\(hwaccel,\w+,[^;]*?,hwtest\(initial_state,block,W,S,\w+\)\);)*)",
+             b, "hwaccel_init (sha256.c)")
+    if m.group(1) != m.group(2):
+        raise NotFound("self-test block length of hwaccel_init")
+    v["shacfg_hwtest_len"] = int(m.group(2))
+    rows_v = []
+    for lab, chk, fn in re.findall(r"CPUSUPPORT_VALIDATE\(hwaccel,(\w+),([^;]*?),hwtest\(initial_state,block,W,S,(\w+)\)\);",
+                                   m.group(3)):
+        if lab not in HWCODE or fn not in TESTED or HWCODE[lab] == 0 or CPUCHK[HWCODE[lab]] != chk:
+            raise NotFound("CPUSUPPORT_VALIDATE(%s, %s, %s) of hwaccel_init" % (lab, chk, fn))
+        rows_v.append((HWCODE[lab], TESTED[fn]))
+    v["shacfg_validate"] = rows_v
+    # the macro: first passing self-test wins, a failing one leaves the variable alone
+    cs = strip_comments(read(repo, "cpusupport/cpusupport.h"))
+    p, mb = macro(cs, "CPUSUPPORT_VALIDATE")
+    p = [re.sub(r"[\\\s]", "", x) for x in p]
+    need(r"do\{if\(\(cpusupport_checks\)\)\{if\(\(check\)==0\)\{\(hwvar\)=\(success_value\);return;\}"
+         r"else\{warn0\(.*?\);\}\}\}while\(0\)", mb, "CPUSUPPORT_VALIDATE")
+    if p != ["hwvar", "success_value", "cpusupport_checks", "check"]:
+        raise NotFound("CPUSUPPORT_VALIDATE parameter list")
+    return v
+
+
+
 def render(v):
     out = HEADER
-    for prefix, title in (("sse2_", "alg/sha256_sse2.c"), ("shani_", "alg/sha256_shani.c")):
+    for prefix, title in (("sse2_", "alg/sha256_sse2.c"), ("shani_", "alg/sha256_shani.c"),
+                          ("shacfg_", "alg/sha256.c (run-time selection)")):
         out += "(* %s *)\n" % title
         for k in sorted(k for k in v if k.startswith(prefix)):
             x = v[k]
@@ -294,6 +375,8 @@ def render(v):
                 out += rows(k, "N * N * N * N * N * N", x)
             elif k == "shani_rndmsg":
                 out += rows(k, "N * N * N * N * N", x)
+            elif k in ("shacfg_switch", "shacfg_validate"):
+                out += rows(k, "N * N", x)
             elif isinstance(x, list):
                 out += coq_def_list(k, x)
             else:
@@ -305,6 +388,7 @@ def extract(repo):
     v = {}
     v.update(extract_sse2(repo))
     v.update(extract_shani(repo))
+    v.update(extract_dispatch(repo))
     return {"Repo_accel.v": render(v)}
 
 
@@ -334,4 +418,5 @@ FALLBACK = {"Repo_accel.v": render({
     "shani_msg_alignr": 4, "shani_rnd_mod": 4, "shani_msg_limit": 12, "shani_msg_ahead": 4,
     "shani_state_offs": [0, 4, 0, 4], "shani_state_shufs": [0x1B] * 4, "shani_block_offs": [0, 16, 32, 48],
     "shani_rndmsg": [(i, _K[4 * i], _K[4 * i + 1], _K[4 * i + 2], _K[4 * i + 3]) for i in range(16)],
+    "shacfg_switch": [(1, 1), (2, 2), (3, 3)], "shacfg_validate": [(1, 1), (2, 2), (3, 3)], "shacfg_hwtest_len": 64,
 })}
